@@ -188,9 +188,48 @@ structure EqTie : Prop where
      ("generic", "GenericMachine", "struct"), ("generic", "u32x4_generic", "struct"), ("generic", "u64x2_generic", "struct"),
      ("generic", "u128x1_generic", "struct"), ("generic", "G0", "struct"), ("generic", "G1", "struct"),
      ("soft", "x2", "struct"), ("soft", "x4", "struct"), ("guts", "ChaCha", "struct"), ("guts", "State", "struct")]
+  /-- **the table `CC.Simd.veq` is the source's**: for every backend, `veq b τ` is the `==` of the Rust type the backend's
+      `impl Machine` gives `type τ` (regenerated per machine and associated type), and `none` exactly where that type has
+      no `PartialEq` (`eq_machine_rows`) -/
+  mach_sse : ∀ b ∈ [Backend.sse2, .ssse3, .sse41, .avx],
+    veq b (.vec .u32x4) = some SimdEqSrc.SseMachine_u32x4_eq ∧ veq b (.vec .u64x2) = some SimdEqSrc.SseMachine_u64x2_eq ∧
+    veq b (.vec .u32x4x2) = some SimdEqSrc.SseMachine_u32x4x2_eq ∧ veq b (.vec .u64x2x2) = some SimdEqSrc.SseMachine_u64x2x2_eq ∧
+    veq b (.vec .u64x4) = some SimdEqSrc.SseMachine_u64x4_eq ∧
+    veq b .storage128 = some SimdEqSrc.vec128_storage_eq ∧ veq b .storage256 = some SimdEqSrc.vec256_storage_eq ∧
+    veq b .storage512 = some SimdEqSrc.vec512_storage_eq
+  mach_avx2 :
+    veq .avx2 (.vec .u32x4) = some SimdEqSrc.Avx2Machine_u32x4_eq ∧ veq .avx2 (.vec .u64x2) = some SimdEqSrc.Avx2Machine_u64x2_eq ∧
+    veq .avx2 (.vec .u64x2x2) = some SimdEqSrc.Avx2Machine_u64x2x2_eq ∧ veq .avx2 (.vec .u64x4) = some SimdEqSrc.Avx2Machine_u64x4_eq ∧
+    veq .avx2 .storage128 = some SimdEqSrc.vec128_storage_eq ∧ veq .avx2 .storage256 = some SimdEqSrc.vec256_storage_eq ∧
+    veq .avx2 .storage512 = some SimdEqSrc.vec512_storage_eq
+  mach_generic :
+    veq .generic (.vec .u32x4) = some SimdEqSrc.generic_u32x4_generic_eq ∧
+    veq .generic (.vec .u64x2) = some SimdEqSrc.generic_u64x2_generic_eq ∧
+    veq .generic (.vec .u128x1) = some SimdEqSrc.generic_u128x1_generic_eq ∧
+    veq .generic .storage128 = some SimdPortSrc.vec128_storage_eq ∧
+    veq .generic .storage256 = some SimdEqSrc.generic_vec256_storage_eq ∧
+    veq .generic .storage512 = some SimdEqSrc.generic_vec512_storage_eq
+  /-- which associated types have a `==` at all, per machine — the `none` entries of `veq` (cf. `CC.Simd.veq_defined`) -/
+  machine_rows : SimdEqSrc.eq_machine_rows =
+    [("SseMachine", "u32x4", ["SseMachine_u32x4_eq"]), ("SseMachine", "u64x2", ["SseMachine_u64x2_eq"]),
+     ("SseMachine", "u128x1", [""]), ("SseMachine", "u32x4x2", ["SseMachine_u32x4x2_eq"]),
+     ("SseMachine", "u64x2x2", ["SseMachine_u64x2x2_eq"]), ("SseMachine", "u64x4", ["SseMachine_u64x4_eq"]),
+     ("SseMachine", "u128x2", [""]), ("SseMachine", "u32x4x4", [""]), ("SseMachine", "u64x2x4", [""]),
+     ("SseMachine", "u128x4", [""]),
+     ("Avx2Machine", "u32x4", ["Avx2Machine_u32x4_eq"]), ("Avx2Machine", "u64x2", ["Avx2Machine_u64x2_eq"]),
+     ("Avx2Machine", "u128x1", [""]), ("Avx2Machine", "u32x4x2", [""]),
+     ("Avx2Machine", "u64x2x2", ["Avx2Machine_u64x2x2_eq"]), ("Avx2Machine", "u64x4", ["Avx2Machine_u64x4_eq"]),
+     ("Avx2Machine", "u128x2", [""]), ("Avx2Machine", "u32x4x4", [""]), ("Avx2Machine", "u64x2x4", [""]),
+     ("Avx2Machine", "u128x4", [""]),
+     ("GenericMachine", "u32x4", ["generic_u32x4_generic_eq"]), ("GenericMachine", "u64x2", ["generic_u64x2_generic_eq"]),
+     ("GenericMachine", "u128x1", ["generic_u128x1_generic_eq"]), ("GenericMachine", "u32x4x2", [""]),
+     ("GenericMachine", "u64x2x2", [""]), ("GenericMachine", "u64x4", [""]), ("GenericMachine", "u128x2", [""]),
+     ("GenericMachine", "u32x4x4", [""]), ("GenericMachine", "u64x2x4", [""]), ("GenericMachine", "u128x4", [""])]
   defs : SimdEqSrc.def_rows =
     ["eq128_s2", "eq128_s4", "u32x4_sse2_eq", "u64x2_sse2_eq", "u32x4x2_sse2_eq", "u64x2x2_sse2_eq", "u64x4_sse2_eq",
-     "vec128_storage_eq", "vec256_storage_eq", "vec512_storage_eq", "generic_vec256_storage_eq", "generic_vec512_storage_eq",
+     "vec128_storage_eq", "vec256_storage_eq", "vec512_storage_eq", "SseMachine_u32x4_eq", "SseMachine_u64x2_eq",
+     "SseMachine_u32x4x2_eq", "SseMachine_u64x2x2_eq", "SseMachine_u64x4_eq", "Avx2Machine_u32x4_eq", "Avx2Machine_u64x2_eq",
+     "Avx2Machine_u64x2x2_eq", "Avx2Machine_u64x4_eq", "generic_vec256_storage_eq", "generic_vec512_storage_eq",
      "generic_u32x4_generic_eq", "generic_u64x2_generic_eq", "generic_u128x1_generic_eq", "guts_ChaCha_eq", "guts_State_eq"]
 
 theorem src_eq : EqTie where
@@ -215,6 +254,13 @@ theorem src_eq : EqTie where
   missing := by decide
   derives := by decide
   structs := by decide
+  mach_sse := by
+    intro b hb
+    simp only [List.mem_cons, List.not_mem_nil, or_false] at hb
+    rcases hb with rfl | rfl | rfl | rfl <;> exact ⟨rfl, rfl, rfl, rfl, rfl, rfl, rfl, rfl⟩
+  mach_avx2 := ⟨rfl, rfl, rfl, rfl, rfl, rfl, rfl⟩
+  mach_generic := ⟨rfl, rfl, rfl, rfl, rfl, rfl⟩
+  machine_rows := by decide
   defs := by decide
 
 end CC.Src
